@@ -517,6 +517,8 @@ pub trait ValT: PartialEq + Clone + Default + fmt::Debug + Sized + 'static {
     const LEDGER: bool;
     /// code that `vd()` reports for `Default::default()`
     const DEFAULT_CODE: u8;
+    /// objects carry ledger identities (even if their destruction is not observable)
+    const HAS_ID: bool = Self::LEDGER;
     fn mk(v: u8) -> Self;
     fn vd(&self) -> VD;
     /// change the value in place (object identity is kept)
@@ -720,5 +722,134 @@ impl ValT for Big {
     }
     fn set(&mut self, v: u8) {
         *self = Big::mk(v);
+    }
+}
+
+// ------------------------------------------------------------------------------------------
+// Kn / Vn: payloads WITHOUT drop glue (no Drop impl, not Copy) whose Clone is observable:
+// every clone goes through the ledger (fresh identity, clone_of, per-object clone count).
+// They make "exactly one clone per element" decidable for code that special-cases types
+// without destructors. Their destruction cannot be observed, so LEDGER is false.
+// ------------------------------------------------------------------------------------------
+#[repr(C)]
+pub struct Kn {
+    cookie: u64,
+    id: u32,
+    pub k: u8,
+    pub tag: u8,
+}
+impl Kn {
+    pub fn new(k: u8, tag: u8) -> Self {
+        let (cookie, id) = alloc(true, k, tag, NOID);
+        Kn { cookie, id, k, tag }
+    }
+}
+impl PartialEq for Kn {
+    fn eq(&self, other: &Self) -> bool {
+        tick(Cb::Eq);
+        touch(true, self.cookie, self.id, self.k, self.tag, "==");
+        touch(true, other.cookie, other.id, other.k, other.tag, "==");
+        self.k == other.k
+    }
+}
+impl Eq for Kn {}
+impl Borrow<u8> for Kn {
+    fn borrow(&self) -> &u8 {
+        tick(Cb::Borrow);
+        &self.k
+    }
+}
+impl Clone for Kn {
+    fn clone(&self) -> Self {
+        tick(Cb::Clone);
+        if touch(true, self.cookie, self.id, self.k, self.tag, "clone") {
+            with(|l| l.objs[self.id as usize].clones += 1);
+        }
+        let (cookie, id) = alloc(true, self.k, self.tag, self.id);
+        Kn { cookie, id, k: self.k, tag: self.tag }
+    }
+}
+impl fmt::Debug for Kn {
+    fn fmt(&self, f: &mut fmt::Formatter<'_>) -> fmt::Result {
+        write!(f, "k{}t{}", self.k, self.tag)
+    }
+}
+impl KeyT for Kn {
+    type Q = u8;
+    const NAME: &'static str = "Kn(no drop glue)";
+    const TAGS: u8 = 2;
+    const MAXK: u8 = 8;
+    const LEDGER: bool = false;
+    const DISTINCT_Q: bool = true;
+    fn mk(k: u8, tag: u8) -> Self {
+        Kn::new(k, tag)
+    }
+    fn kd(&self) -> KD {
+        touch(true, self.cookie, self.id, self.k, self.tag, "inspect");
+        KD { id: self.id, k: self.k, tag: self.tag }
+    }
+    fn with_q<R>(k: u8, f: impl FnOnce(&u8) -> R) -> R {
+        f(&k)
+    }
+}
+
+#[repr(C)]
+pub struct Vn {
+    cookie: u64,
+    id: u32,
+    pub v: u8,
+}
+impl Vn {
+    pub fn new(v: u8) -> Self {
+        let (cookie, id) = alloc(false, v, 0, NOID);
+        Vn { cookie, id, v }
+    }
+}
+impl PartialEq for Vn {
+    fn eq(&self, other: &Self) -> bool {
+        tick(Cb::Eq);
+        self.v == other.v
+    }
+}
+impl Default for Vn {
+    fn default() -> Self {
+        Vn::new(0)
+    }
+}
+impl Clone for Vn {
+    fn clone(&self) -> Self {
+        tick(Cb::Clone);
+        if touch(false, self.cookie, self.id, self.v, 0, "clone") {
+            with(|l| l.objs[self.id as usize].clones += 1);
+        }
+        let (cookie, id) = alloc(false, self.v, 0, self.id);
+        Vn { cookie, id, v: self.v }
+    }
+}
+impl fmt::Debug for Vn {
+    fn fmt(&self, f: &mut fmt::Formatter<'_>) -> fmt::Result {
+        write!(f, "v{}", self.v)
+    }
+}
+impl ValT for Vn {
+    const NAME: &'static str = "Vn(no drop glue)";
+    const MAXV: u8 = 8;
+    const LEDGER: bool = false;
+    const HAS_ID: bool = true;
+    const DEFAULT_CODE: u8 = 0;
+    fn mk(v: u8) -> Self {
+        Vn::new(v)
+    }
+    fn vd(&self) -> VD {
+        touch(false, self.cookie, self.id, self.v, 0, "inspect");
+        VD { id: self.id, v: self.v }
+    }
+    fn set(&mut self, v: u8) {
+        with(|l| {
+            if let Some(o) = l.objs.get_mut(self.id as usize) {
+                o.code = v;
+            }
+        });
+        self.v = v;
     }
 }
